@@ -11,7 +11,10 @@ SumTo(k, i) == IF i = 0 THEN 0 ELSE k[i] + SumTo(k, i - 1)      \* cumulative nu
 
 \* 0-based outcome for uniform j/(2D): the least i with u < cum_i
 RECURSIVE DataFrom(_, _, _)
-DataFrom(k, j, i) == IF i > Len(k) THEN Len(k) - 1
+\* (a uniform at or above the total mass - a sub-normalised vector, or rounding in the cumulative sum - falls through to
+\* the LAST outcome of non-zero probability, never to an outcome of probability zero)
+LastPositive(k) == IF \E i \in 1..Len(k) : k[i] > 0 THEN CHOOSE i \in 1..Len(k) : k[i] > 0 /\ \A m \in (i + 1)..Len(k) : k[m] = 0 ELSE Len(k)
+DataFrom(k, j, i) == IF i > Len(k) THEN LastPositive(k) - 1
                      ELSE IF j < 2 * SumTo(k, i) THEN i - 1 ELSE DataFrom(k, j, i + 1)
 Data(k, j) == DataFrom(k, j, 1)
 
